@@ -12,6 +12,12 @@ use std::sync::Mutex;
 use purl::{GenericPurl, ParseError, PurlField, PurlShape};
 use serde_json::{json, Value};
 
+/// purl's small string type under the current feature set
+#[cfg(feature = "smart")]
+pub type SStr = purl::SmallString;
+#[cfg(not(feature = "smart"))]
+pub type SStr = String;
+
 #[derive(Clone, Copy, Debug, PartialEq, Eq, Hash, PartialOrd, Ord)]
 pub enum Tier {
     Quick,
